@@ -626,11 +626,23 @@ func (e *sqEval) returnedAnyList(fn *types.Func) *ast.CompositeLit {
 			if !ok || fd.Body == nil || e.info.Defs[fd.Name] != fn {
 				continue
 			}
-			if len(fd.Body.List) != 1 {
+			// the list is built by the function's only return statement, its last statement (local preparation of
+			// single elements — a NULL-or-value variable, say — may precede it)
+			if len(fd.Body.List) == 0 {
 				return nil
 			}
-			rs, ok := fd.Body.List[0].(*ast.ReturnStmt)
-			if !ok || len(rs.Results) != 1 {
+			nRet := 0
+			ast.Inspect(fd.Body, func(n ast.Node) bool {
+				switch n.(type) {
+				case *ast.FuncLit:
+					return false
+				case *ast.ReturnStmt:
+					nRet++
+				}
+				return true
+			})
+			rs, ok := fd.Body.List[len(fd.Body.List)-1].(*ast.ReturnStmt)
+			if !ok || len(rs.Results) != 1 || nRet != 1 {
 				return nil
 			}
 			lit, ok := ast.Unparen(rs.Results[0]).(*ast.CompositeLit)
